@@ -599,7 +599,7 @@ fn cli_argv(rep: &Report) {
                 if seq.len() >= maxlen.max(3) && ei == 0 {
                     continue; // the longest vectors under the populated environment only
                 }
-                let cmd = Cmd { args: seq.iter().map(|&i| vocab[i].clone()).collect(), env: env.clone(), stdin: proc::StdinSpec::Null, stdout_file: None, stdout_closed_pipe: false, stdin_path: None, fsize_limit: None, pty: None, stdin_splits: vec![], stdout_nonblock_slow: None, env_bytes: vec![], stdout_reader_leaves_after: None, stdin_nonblock: false, stdin_socket_reset: None, stderr_reader_leaves_after: None };
+                let cmd = Cmd { args: seq.iter().map(|&i| vocab[i].clone()).collect(), env: env.clone(), stdin: proc::StdinSpec::Null, stdout_file: None, stdout_closed_pipe: false, stdin_path: None, fsize_limit: None, pty: None, stdin_splits: vec![], stdout_nonblock_slow: None, env_bytes: vec![], stdout_reader_leaves_after: None, stdin_nonblock: false, stdin_socket_reset: None, stderr_reader_leaves_after: None, stdin_offset: None };
                 let out = proc::run(&cmd, &sc.0);
                 count.fetch_add(1, Ordering::Relaxed);
                 completed_len.lock().unwrap()[seq.len()] += 1;
@@ -843,7 +843,7 @@ fn cli_option_junk(rep: &Report) {
         sc.write("kr.txt", kr.as_bytes());
         sc.write("plain.bin", &p);
         sc.write("ct.ktl", &ct);
-        let cmd = Cmd { args: args.clone(), env: vec![("KESTREL_PASSWORD".into(), "alicepw".into()), ("KESTREL_NEW_PASSWORD".into(), "x".into())], stdin: proc::StdinSpec::Bytes(b"newname\n".to_vec()), stdout_file: None, stdout_closed_pipe: false, stdin_path: None, fsize_limit: None, pty: None, stdin_splits: vec![], stdout_nonblock_slow: None, env_bytes: vec![], stdout_reader_leaves_after: None, stdin_nonblock: false, stdin_socket_reset: None, stderr_reader_leaves_after: None };
+        let cmd = Cmd { args: args.clone(), env: vec![("KESTREL_PASSWORD".into(), "alicepw".into()), ("KESTREL_NEW_PASSWORD".into(), "x".into())], stdin: proc::StdinSpec::Bytes(b"newname\n".to_vec()), stdout_file: None, stdout_closed_pipe: false, stdin_path: None, fsize_limit: None, pty: None, stdin_splits: vec![], stdout_nonblock_slow: None, env_bytes: vec![], stdout_reader_leaves_after: None, stdin_nonblock: false, stdin_socket_reset: None, stderr_reader_leaves_after: None, stdin_offset: None };
         let out = proc::run(&cmd, &sc.0);
         rep.nontrivial(&args.concat());
         if let Err(e) = out.well_behaved() {
@@ -958,14 +958,26 @@ pub fn run(rep: &'static Report) {
     rep.assume("stdin is /dev/null and the process has no controlling terminal (setsid), so prompts cannot block; wall limit 30 s per process");
     kra::note(rep);
     let ids = idents(rep.seed);
+    let t0 = std::time::Instant::now();
+    let mut phases: Vec<(&str, f64)> = vec![];
+    let mut mark = |n: &'static str, phases: &mut Vec<(&str, f64)>| phases.push((n, t0.elapsed().as_secs_f64()));
     file_surface(rep, &ids);
+    mark("file_surface", &mut phases);
     bounded_work(rep, &ids);
+    mark("bounded_work", &mut phases);
     primitive_surfaces(rep, &ids);
+    mark("primitive_surfaces", &mut phases);
     string_surfaces(rep);
+    mark("string_surfaces", &mut phases);
     cli_argv(rep);
+    mark("cli_argv", &mut phases);
     cli_slot_grid(rep);
+    mark("cli_slot_grid", &mut phases);
     cli_option_junk(rep);
+    mark("cli_option_junk", &mut phases);
     cli_hostile_keyrings(rep);
+    mark("cli_hostile_keyrings", &mut phases);
+    rep.extra("phase_end_seconds", json!(phases.iter().map(|(n, t)| json!([n, (t * 10.0).round() / 10.0])).collect::<Vec<_>>()));
     rep.set_exhaustive(true);
 }
 
